@@ -1,6 +1,6 @@
 (* C09 - a server-initiated channel close affects that channel only.
    This file only pins statements. *)
-From Amq Require Import Lib.Base Gen.Consts Model.Wire Model.Frames Model.OutBuf Model.Collector Model.Slots Model.Core Spec.Slots Spec.Content Proofs.Slots Proofs.OutBuf Proofs.Collector Proofs.CoreContent Proofs.CoreInv Proofs.CoreMore.
+From Amq Require Import Lib.Base Gen.Consts Model.Wire Model.Frames Model.OutBuf Model.Collector Model.Slots Model.Core Spec.Slots Spec.Content Proofs.Slots Proofs.OutBuf Proofs.Collector Proofs.CoreContent Proofs.CoreInv Proofs.CoreMore Check.Core Proofs.Examples.
 
 (* a successful Channel.Close(n): slot n and its id are gone, exactly Channel.CloseOk(n) is queued, phase and channel-0 state are untouched and every other slot is as before *)
 Theorem C09_effect : forall (n code : N) (text dbg : str) (c c' : core), steady c -> n <> 0 -> process c (FMethod n (MChanClose code text), dbg) = (OOk, c') -> alookup n (c_slots c') = None /\ c_ids c' = snd (remove n (c_ids c)) /\ c_out c' = ob_append (c_out c) (ser_chan_close_ok n) /\ c_phase c' = c_phase c /\ c_ch0 c' = c_ch0 c /\ (forall k : N, k <> n -> alookup k (c_slots c') = alookup k (c_slots c)).
@@ -22,6 +22,18 @@ Proof. exact closed_slot_wakeup. Qed.
 Theorem C09_no_panic : forall (c : core) (f : dframe) (o : outcome) (c' : core), process c f = (o, c') -> WFs c -> (forall site : N, o <> OPanic site) /\ WFs c'.
 Proof. exact process_WFs. Qed.
 
+(* non-vacuity of C09_chan_close_effect: the server closes channel 1 of two: its slot is gone,
+   Channel.CloseOk(1) is queued, its consumer and its caller are told, channel 2 is untouched *)
+Example C09_example :
+  let '(o, c) := process ex_two_channels (FMethod 1 (MChanClose 406 [120]), []) in
+  (o, map fst (c_slots c), ob (c_out c)) = (OOk, [2], [1; 0; 1; 0; 0; 0; 4; 0; 20; 0; 41; 206]) /\
+  alookup 2 (c_slots c) = alookup 2 (c_slots ex_two_channels) /\
+  ex_queues c = [(4297064448, [IServerClosedChannel (EServerClosedChannel 1 406 [120])], false);
+                 (2, [IReplyConsumeOk [116] 4297064448; IReplyErr (EServerClosedChannel 1 406 [120])], false);
+                 (3, [IReplyConsumeOk [117] 4298113024], true); (4298113024, [], true);
+                 (1, [IAllocOk 1; IAllocOk 2], true); (0, [], true)].
+Proof. vm_compute. repeat split. Qed.
+
 Check C09_effect : forall (n code : N) (text dbg : str) (c c' : core), steady c -> n <> 0 -> process c (FMethod n (MChanClose code text), dbg) = (OOk, c') -> alookup n (c_slots c') = None /\ c_ids c' = snd (remove n (c_ids c)) /\ c_out c' = ob_append (c_out c) (ser_chan_close_ok n) /\ c_phase c' = c_phase c /\ c_ch0 c' = c_ch0 c /\ (forall k : N, k <> n -> alookup k (c_slots c') = alookup k (c_slots c)).
 Check C09_isolation : forall (f : frame) (dbg : str) (c : core) (o : outcome) (c' : core), frame_chan f <> 0 -> process c (f, dbg) = (o, c') -> slots_off (frame_chan f) c c'.
 Check C09_reusable : forall (ids : slots) (n : N), Inv ids -> in_range (cmax ids) n -> fst (insert_some true n (snd (remove n ids))) = ROk n.
@@ -33,3 +45,4 @@ Print Assumptions C09_isolation.
 Print Assumptions C09_reusable.
 Print Assumptions C09_stale_wakeup.
 Print Assumptions C09_no_panic.
+Print Assumptions C09_example.
